@@ -905,6 +905,12 @@ func (s *session) write(message Message) (net.Conn, *Status) {
 	usedConn := s.getConn()
 	status := s.getStatus()
 	if !(status == statusOk || (status == statusActiveClosing && message.Mtype() == TypeReply)) {
+		if status == statusRedialing || status == statusPreparing {
+			// A redial is in progress and may already have installed the new connection:
+			// do not report that connection as the failed one, otherwise the caller
+			// would redial once more as soon as the running redial has finished.
+			usedConn = nil
+		}
 		return usedConn, statConnClosed
 	}
 
